@@ -89,6 +89,26 @@ func (h resumeHarness) Gen(r *verifsim.SplitMix, tier string, idx int) any {
 	for i := 0; i < n; i++ {
 		sp.Chain = append(sp.Chain, genLink(r))
 	}
+	if h.prop != "C06" && r.Chance(1, 4) {
+		// the sender of an interrupted run was started with another chunk size than the
+		// final one; preferably one that gives the same number of chunks for a file
+		f := sp.Files[r.Intn(len(sp.Files))]
+		alt := []uint32{7, 64, 512, 1024, 4096}[r.Intn(5)]
+		want := chunkTotalRef(int64(f.N), sp.Chunk)
+		for _, c := range []uint32{sp.Chunk + 1, sp.Chunk - 1, sp.Chunk + sp.Chunk/3, sp.Chunk - sp.Chunk/4, sp.Chunk + 2} {
+			if c > 0 && c != sp.Chunk && chunkTotalRef(int64(f.N), c) == want && r.Chance(3, 4) {
+				alt = c
+				break
+			}
+		}
+		if alt != sp.Chunk {
+			for i := range sp.Chain {
+				if i == 0 || r.Chance(1, 2) {
+					sp.Chain[i].Chunk = alt
+				}
+			}
+		}
+	}
 	if h.prop == "C06" && r.Chance(2, 5) {
 		// a prior state written directly (every bitmap shape, in particular ones an
 		// interrupted run rarely leaves), then damaged
@@ -100,6 +120,12 @@ func (h resumeHarness) Gen(r *verifsim.SplitMix, tier string, idx int) any {
 		for i := 0; i < nd; i++ {
 			sp.Damage = append(sp.Damage, txDamage{Kind: damageKinds[r.Intn(len(damageKinds))], File: r.Intn(8), Arg: r.Intn(1 << 20)})
 		}
+	}
+	if h.prop == "C06" && r.Chance(1, 6) {
+		// a stale sidecar that sits only at the fallback location: data file deleted or shortened
+		f := r.Intn(8)
+		sp.NoRoot, sp.Scan = true, "root"
+		sp.Damage = append(sp.Damage, txDamage{Kind: "to_fallback", File: f}, txDamage{Kind: []string{"data_deleted", "data_shortened"}[r.Intn(2)], File: f})
 	}
 	if tier == "thorough" && idx%20 == 0 && h.prop != "C06" {
 		// exhaustive: crash the receiver at every crash point of one schedule
@@ -304,6 +330,11 @@ func runChain(sp *txSpec, src, out string, enumN int) (cr chainResult) {
 		if li == 0 {
 			n = enumN
 		}
+		lsp := *sp
+		if l0.Chunk > 0 {
+			lsp.Chunk = l0.Chunk
+		}
+		sp := &lsp
 		l, _, skip := resolveLink(sp, l0, src, out, n)
 		if skip != "" {
 			cr.skipped = skip
@@ -363,6 +394,15 @@ var syntheticSrc string
 
 // tornChunks lists (file key, chunk index) pairs damaged by tear_highest in the current history.
 var tornChunks [][2]uint64
+
+// fallbackHolds reports whether a sidecar for the item sits at the fallback location.
+func fallbackHolds(sp *txSpec, out string, m manifest.Manifest, it manifest.FileItem) bool {
+	if !sp.NoRoot || m.Root == "" {
+		return false
+	}
+	_, err := os.Stat(SidecarPath(filepath.Join(out, m.Root), "", sidecarIdentifier(it)))
+	return err == nil
+}
 
 func applyDamage(sp *txSpec, out string, m manifest.Manifest, d txDamage) string {
 	var files []manifest.FileItem
@@ -457,6 +497,14 @@ func applyDamage(sp *txSpec, out string, m manifest.Manifest, d txDamage) string
 			size = it.Size + int64(sp.Chunk)
 		case "foreign_chunk":
 			cs = sp.Chunk * 2
+			// prefer another chunk size that gives the same number of chunks
+			want := chunkTotalRef(it.Size, sp.Chunk)
+			for _, c := range []uint32{sp.Chunk + 1, sp.Chunk - 1, sp.Chunk + 2, sp.Chunk + sp.Chunk/3, sp.Chunk - sp.Chunk/4} {
+				if c > 0 && c != sp.Chunk && chunkTotalRef(it.Size, c) == want && d.Arg%3 != 0 {
+					cs = c
+					break
+				}
+			}
 		case "foreign_id":
 			id = "0123456789abcdef"
 		}
@@ -470,21 +518,31 @@ func applyDamage(sp *txSpec, out string, m manifest.Manifest, d txDamage) string
 		}
 		sc.Flush()
 	case "to_fallback":
-		if scErr != nil || sp.NoRoot {
+		// the sidecar sits only at the fallback location <out>/<root>/.thruflux_resumedata
+		// (left by an earlier run that kept the root directory); the receiver now runs
+		// without root directory
+		if scErr != nil || !sp.NoRoot || m.Root == "" {
 			return ""
 		}
-		// (only meaningful when base != rooted dir; kept for completeness)
-		return ""
+		fb := SidecarPath(filepath.Join(out, m.Root), "", sidecarIdentifier(it))
+		if fb == scPath {
+			return ""
+		}
+		os.MkdirAll(filepath.Dir(fb), 0o755)
+		if os.WriteFile(fb, raw, 0o644) != nil {
+			return ""
+		}
+		os.Remove(scPath)
 	case "tmp_leftover":
 		os.MkdirAll(filepath.Dir(scPath), 0o755)
 		os.WriteFile(scPath+".tmp", []byte("partial"), 0o644)
 	case "data_deleted":
-		if scErr != nil {
+		if scErr != nil && !fallbackHolds(sp, out, m, it) {
 			return ""
 		}
 		os.Remove(dataPath)
 	case "data_shortened":
-		if scErr != nil {
+		if scErr != nil && !fallbackHolds(sp, out, m, it) {
 			return ""
 		}
 		if fi, err := os.Stat(dataPath); err == nil && fi.Size() > 0 {
@@ -660,6 +718,15 @@ func (h resumeHarness) Run(spec any) (res verifsim.RunResult) {
 			prefix = m.Root
 		}
 		want := expectedDigest(prefix, sp.ContentSeed, sp.Files, sp.Dirs)
+		if sp.NoRoot && m.Root != "" {
+			// what the harness itself planted at the fallback location is not output
+			for _, d := range damaged {
+				if d == "to_fallback" {
+					os.RemoveAll(filepath.Join(out, m.Root, ".thruflux_resumedata"))
+					os.Remove(filepath.Join(out, m.Root)) // only if nothing else is in it
+				}
+			}
+		}
 		got, _ := digestTree(out, out, base)
 		diff := diffDigests(want, got)
 		switch h.prop {
@@ -764,7 +831,7 @@ func strongestDamage(kinds []string) string {
 		return "synthetic-only"
 	}
 	kinds = real
-	for _, k := range []string{"tear_highest", "data_deleted", "data_shortened", "foreign_size", "foreign_chunk", "foreign_id", "bitflip", "truncate", "garbage", "tmp_leftover"} {
+	for _, k := range []string{"tear_highest", "to_fallback", "data_deleted", "data_shortened", "foreign_size", "foreign_chunk", "foreign_id", "bitflip", "truncate", "garbage", "tmp_leftover"} {
 		for _, x := range kinds {
 			if x == k {
 				return k
